@@ -22,6 +22,10 @@ func main() {
 		replayMain()
 	case "dettest":
 		dettestMain()
+	case "scaletest":
+		fl := flag.NewFlagSet("scaletest", flag.ExitOnError)
+		workerFlags(fl)
+		scaletestMain()
 	case "simtest":
 		fl := flag.NewFlagSet("simtest", flag.ExitOnError)
 		workerFlags(fl)
